@@ -849,7 +849,11 @@ def check_C13(tier):
     run = vlib.scratch("tc")
     try:
         tf = os.path.join(run, "tc.ndjson")
-        vlib.run_driver(["timectl", "-grid", vlib.art_out(ga) + "," + vlib.art_out(ra), "-trace", tf], cwd=run)
+        # -bookdir: the first move of every game (every 4th in the quick tier) is also searched by a real Search right after a real
+        # book move (the repository's small sample book), stopped at once, and asked for the time it was ALLOWED to take
+        shutil.copy(os.path.join(vlib.REPO, "assets", "books", "book_smalltest.txt"), run)    # (the book writes a cache file next to its source)
+        vlib.run_driver(["timectl", "-grid", vlib.art_out(ga) + "," + vlib.art_out(ra), "-trace", tf,
+                         "-bookdir", run, "-ext", 4 if quick else 1], cwd=run, timeout=3600)
         trace = open(tf).read()
     finally:
         shutil.rmtree(run, ignore_errors=True)
@@ -868,9 +872,21 @@ def check_C13(tier):
     ck.cov["transitions"] += tst["states_generated"]
     games = sum(1 for l in lines if '"start"' in l)
     cnt["clock_games"] = games
-    cnt["clock_moves"] = len(lines) - games
+    next_ = sum(1 for l in lines if '"ext"' in l)
+    cnt["clock_moves"] = len(lines) - games - next_
+    cnt["first_searches_after_a_book_move"] = next_
     for b in bad:
         ev = json.loads(lines[b - 1])
+        if ev["ev"] == "ext":
+            i = b - 1
+            while json.loads(lines[i])["ev"] != "start":
+                i -= 1
+            start = json.loads(lines[i])
+            disc("clock-budget", "clock-allotted/first-search-after-book-move-exceeds-remaining-time" + ("/increment>0" if start["inc"] > 0 else ""), "",
+                 {"game": {k: start[k] for k in ("time", "inc", "movestogo", "phase", "stm", "opp")}, "remaining_ms": ev["rem"], "allotted_ms": ev["b"],
+                  "note": "time limit + extra time of a real search started right after a real book move"},
+                 {"trace": [json.loads(x) for x in lines[i:b]]})
+            continue
         i = b - 1
         while json.loads(lines[i])["ev"] != "start":
             i -= 1
@@ -902,6 +918,12 @@ def check_C13(tier):
     for n in pos[:(6 if quick else 30)]:
         for t in (30, 60, 120, 250) + (() if quick else (500,)):
             add(n, "movetime", "movetime", movetime=t)
+    # real searches under the clock with a budget close to the clock itself (one move to go; an increment larger than the clock):
+    # whatever the search adds to its budget while it runs (extra time), what it is allowed to take and what it takes stay within
+    # the clock
+    for n in pos:
+        add(n, "clock", "clock", time=rng.choice([150, 200, 300]), movestogo=1)
+        add(n, "clock", "clock", time=rng.choice([120, 250]), inc=rng.choice([2000, 10000]))
     # roots with a forced mate on the board (the specification's game tree says which: a child without legal moves, in check):
     # the depth limit counts there as everywhere else - a found mate is no licence to stop early
     tree = shared(tier)["tree"]
@@ -952,9 +974,19 @@ def check_C13(tier):
         elif j["tag"] == "movetime":
             if r["elapsed_ms"] > j["movetime"] + 250:
                 slow.append(j)
+        elif j["tag"] == "clock":
+            if r["allotted_ms"] > j["time"]:
+                disc("clock-budget", "clock-allotted/exceeds-remaining-time-during-search", r["fen"],
+                     {"clock_ms": j["time"], "inc": j["inc"], "movestogo": j["movestogo"], "allotted_ms": r["allotted_ms"], "elapsed_ms": r["elapsed_ms"]}, {"job": j})
+            elif r["elapsed_ms"] > j["time"] + 250:
+                slow.append(j)
     # a slow measurement is repeated twice (alone) before it counts
     for j in slow:
         again = [sl.run_jobs([j], procs=1)[0]["elapsed_ms"] for _ in range(2)]
+        if j["tag"] == "clock":
+            if min(again) > j["time"] + 250:
+                disc("clock-budget", "clock/late", sl.fen_of(j["pos"]), {"clock_ms": j["time"], "elapsed_ms": again}, {"job": j})
+            continue
         if min(again) > j["movetime"] + 250:
             disc("move-time", "movetime/late", sl.fen_of(j["pos"]), {"movetime": j["movetime"], "elapsed_ms": again}, {"job": j})
     ck.cov["evaluations"] = len(recs) + cnt["clock_moves"]
@@ -964,7 +996,8 @@ def check_C13(tier):
     ck.cov["rule"] = ("clock budget: every point of the grid remaining time x increment x moves-to-go x game phase x side (enumerated by TLC) is "
                       "played as a clock game with the engine's budget function and validated against TimeControl.tla (budget <= remaining, "
                       "clock never negative); searches: depth 1-4, node limits, seeded searchmoves subsets (best move checked by TLC), move "
-                      "times with 250 ms allowance; non-trivial = all games and searches")
+                      "times with 250 ms allowance; the first search after a real book move (every game of the grid) and real clock-controlled searches with a "
+                      "budget close to the clock: time limit + extra time never above the clock; non-trivial = all games and searches")
     ck.cov["samples"] = [json.loads(x) for x in lines[16:20]]
     ck.assumptions += ["move-time allowance 250 ms, a late answer is re-measured twice alone", "node overshoot allowance 300 nodes"]
     return ck.finish()
@@ -2343,6 +2376,24 @@ def check_C16(tier):
             sid = len(scripts) + 1
             scripts.append({"id": sid, "name": "unusual/idle", "steps": steps})
             meta[sid] = {"mal": o_, "ctx": "idle", "fen": fen, "valid": True, "keeps_position": o_ != "ucinewgame"}
+    # options that allocate, free or replace something (hash table, book), in every ordered pair, on a FRESH engine: sent right after
+    # uciok, before any isready / go has made the engine build its tables - and the same pairs after a first isready
+    structural = ["setoption name Hash value 0", "setoption name Hash value 1", "setoption name Hash value 16", "setoption name Use_Hash value false",
+                  "setoption name Use_Hash value true", "setoption name Clear Hash", "setoption name Use_Book value false", "setoption name Ponder value false",
+                  "setoption name Print Config", "ucinewgame"]
+    n0 = nodes[0]
+    cmd0, fen0 = uci_position_cmd(n0)
+    pairs = [(a_, b_) for a_ in structural for b_ in structural]
+    if quick:
+        pairs = [pr for k_, pr in enumerate(pairs) if k_ % 2 == SEED % 2 or "Hash" in pr[0] and "Hash" in pr[1]]
+    for a_, b_ in pairs:
+        for warm in (False, True):
+            if warm and quick and (a_, b_) not in pairs[::3]:
+                continue
+            steps = [S("uci"), ul.wait("uciok", 3000)] + ([ul.sync()] if warm else []) + [S(a_), S(b_), S(cmd0), ul.sync(), S("go depth 1"), ul.wait("bestmove", 8000), ul.sync()]
+            sid = len(scripts) + 1
+            scripts.append({"id": sid, "name": "unusual/options-" + ("warm" if warm else "fresh"), "steps": steps})
+            meta[sid] = {"mal": a_ + " ; " + b_, "ctx": "warm" if warm else "fresh", "fen": fen0, "valid": True, "skip_fens": 1 if warm else 0}
     # a long but supported game: 380 half moves of knight shuffles (the position is the initial one with its clocks advanced)
     long_game = "position startpos moves " + " ".join(["g1f3", "g8f6", "f3g1", "f6g8"] * 95)
     sid = len(scripts) + 1
@@ -2376,7 +2427,7 @@ def check_C16(tier):
         for e in ev:
             if e["ev"] == "timeout":
                 disc("engine-unresponsive", "uci/no-" + e.get("line", "") + "/" + word, sid, {"line": m["mal"][:200], "context": m["ctx"]})
-        fens = [e.get("line", "") for e in ev if e["ev"] == "fen"]
+        fens = [e.get("line", "") for e in ev if e["ev"] == "fen"][m.get("skip_fens", 0):]
         if len(fens) >= 2 and fens[1] != fens[0] and m.get("keeps_position", True):
             disc("position-lost", "uci/position-changed/" + word, sid, {"line": m["mal"][:200], "before": fens[0], "after": fens[1]})
         if fens and fens[0] != m["fen"]:
